@@ -563,6 +563,30 @@ func runC19(r *core.Run) {
 				})
 			}
 		})
+	// the same laws on longer words over small alphabets, one per group of laws, so that states which need several steps to
+	// reach (a copy forced by an earlier run, a pending '&' or '%', a partially decoded sequence) meet every later token
+	focus := []struct {
+		name string
+		toks []string
+		nq   int
+		nt   int
+	}{
+		{"label", []string{"a", " ", "\t", "\n", "A", "ß", "  "}, 7, 8},
+		{"escape", []string{"a", "&", "<", "\"", ";", "#", "\xc3", "amp", ">"}, 6, 7},
+		{"url", []string{"a", "%", "4", "g", " ", "é", "\x80", "&", "\\", "/"}, 6, 7},
+		{"references", []string{"&", "#", "x", "1", ";", "a", "\\", "amp", "0", "D800"}, 6, 7},
+	}
+	for _, f := range focus {
+		wordsSub(r, "laws-"+f.name+"-words", fmt.Sprintf("every law of laws-words on every word of ≤%d tokens over the small alphabet %q", core.Pick(r, f.nq, f.nt), f.toks),
+			f.toks, core.Pick(r, f.nq, f.nt), func(s *core.Sub, w int) func(word []byte) uint64 {
+				return func(word []byte) uint64 {
+					x := append([]byte{}, word...)
+					return c19Laws(x, func(sig, detail, want, got string) {
+						s.Violate(sig, "", word, nil, detail, want, got)
+					})
+				}
+			})
+	}
 	runC19Runes(r)
 	runC19Numeric(r)
 	runC19Filter(r)
